@@ -159,6 +159,22 @@ pub struct TestPort {
     pub st: Rc<RefCell<PortState>>,
 }
 
+thread_local! {
+    /// state handles of the ports created through `TestPort::default()` on this thread (a bus or bridge built from a
+    /// default port owns the port; this is how a check can still look at it)
+    pub static DEFAULT_PORTS: RefCell<Vec<Rc<RefCell<PortState>>>> = const { RefCell::new(Vec::new()) };
+}
+
+/// A port fresh out of the box: none of the settings is what the signs need.
+impl Default for TestPort {
+    fn default() -> Self {
+        let p = TestPort::new(vec![]);
+        p.st.borrow_mut().settings = weird_settings();
+        DEFAULT_PORTS.with(|d| d.borrow_mut().push(p.handle()));
+        p
+    }
+}
+
 impl TestPort {
     pub fn new(tape: Vec<u8>) -> Self {
         TestPort { st: Rc::new(RefCell::new(PortState::new(tape))) }
